@@ -271,7 +271,7 @@ func projectV(w *bytes.Buffer, t *TypeD, rv reflect.Value, canon bool) {
 			e.WriteByte(']')
 			ents = append(ents, e.String())
 		}
-		if canon {
+		if canon || sortMapEntries {
 			sort.Strings(ents)
 		}
 		for i, e := range ents {
@@ -314,6 +314,9 @@ func projectV(w *bytes.Buffer, t *TypeD, rv reflect.Value, canon bool) {
 		panic("harness: kind " + t.K)
 	}
 }
+
+// sortMapEntries makes the plain projection independent of map iteration order (digests)
+var sortMapEntries bool
 
 func structT(name string) *TypeD { return &TypeD{K: "struct", S: name} }
 
